@@ -29,9 +29,10 @@ LETTERS = {
     'iaE': {'fn': 'in_a', 'a': ['xs'], 'exc': 'E1'}, 'oaE': {'fn': 'out_a', 'a': ['x2'], 'exc': 'E2'},
     'nest_io': {'fn': 'in_b', 'a': ['x2'], 'pre': [{'fn': 'out_a', 'a': ['x1']}, {'fn': 'in_a', 'a': ['x1']}]},
     'nest_oi': {'fn': 'out_b', 'a': ['x2'], 'pre': [{'fn': 'in_a', 'a': ['x1']}, {'fn': 'out_b', 'a': ['x1']}]},
+    'ia_t2': {'fn': 'in_a', 'a': ['xt2']}, 'ia_l': {'fn': 'in_a', 'a': ['xl']},
     'thr_o': {'do': 'thr', 'steps': [{'fn': 'out_a', 'a': ['x2']}, {'fn': 'in_a', 'a': ['x1']}]},
 }
-QUICK = ['ia1', 'ia2', 'ib1', 'is1', 'ip', 'irA', 'irB', 'ic', 'ic_', 'ih', 'if', 'oa', 'oakw', 'os', 'oh', 'iaE', 'oaE', 'nest_io', 'thr_o']
+QUICK = ['ia1', 'ia2', 'ib1', 'is1', 'ip', 'irA', 'irB', 'ic', 'ic_', 'ih', 'if', 'oa', 'oakw', 'os', 'oh', 'iaE', 'oaE', 'nest_io', 'thr_o', 'ia_t2', 'ia_l']
 RET_CYCLE = ['vlst', 'vtup', 'vobj', 'vdct', 'vs', 'vb', 'v0', 'vset', 'vn', 'vsh', 'vq', 'vu']
 
 
@@ -76,6 +77,17 @@ def gen_cases(tier, seed):
             yield {'prog': {'steps': [{'fn': 'out_a', 'a': [v], 'k': {'kw': v}, 'ret': v}]}, 'cas': kind}
             yield {'prog': {'steps': [{'fn': 'in_hdl', 'a': [v], 'ret': v}, {'fn': 'out_hdl', 'a': [v], 'ret': v}]}, 'cas': kind}
             yield {'prog': {'steps': [{'fn': 'in_a', 'a': [v], 'ret': 'u1'}, {'fn': 'in_a', 'a': ['x1'], 'ret': 'u2'}]}, 'cas': kind}
+        # same alias, arguments that differ only by Python type: each call must get its own value back
+        tw = ['xt2', 'xl', 'xset', 'xo1', 'xo2', 'x1', 'x1f', 'xtrue', 'xs', 'xb', 'xn']
+        for a1, a2 in itertools.permutations(tw, 2):
+            yield {'prog': {'steps': [{'fn': 'in_a', 'a': [a1], 'ret': 'u1'}, {'fn': 'in_a', 'a': [a2], 'ret': 'u2'}]}, 'cas': kind}
+            if a1 < a2:
+                yield {'prog': {'steps': [{'fn': 'in_static', 'k': {'p': a1}, 'ret': 'u1'}, {'fn': 'in_static', 'k': {'p': a2}, 'ret': 'u2'},
+                                          {'fn': 'in_static', 'a': [a1], 'ret': 'u3'}]}, 'cas': kind}
+        # copy-on-interception: the service mutates what it received after capture; the recording must hold the captured state
+        for v in ('vlst', 'vdct', 'vset', 'vobj', 'vtl', 'vfl', 'vsh'):
+            for fn in ('in_a', 'in_static', 'out_a', 'in_hdl'):
+                yield {'prog': {'params': {'copy': True}, 'steps': [{'fn': fn, 'a': ['x1'], 'ret': v}, {'do': 'mut'}, {'fn': 'out_b', 'a': ['x2'], 'ret': 'v1'}]}, 'cas': kind}
         # long tails
         for fn in ('out_a', 'out_static', 'out_hdl'):
             for n in (9, 10, 11, 12):
